@@ -509,12 +509,14 @@ PROPS = {
         "rule": "requests from a grammar - 11 methods incl. CONNECT, TRACE and an extension method; absolute URIs (9 schemes incl. odd "
                 "case and unknown ones x 15 host forms: DNS, IPv4, bracketed IPv6, punycode, underscore, URI-legal names rustls rejects; "
                 "ports absent/80/443/0/random; 8 paths; 5 queries), origin-form, authority-form and asterisk-form URIs; all five "
-                "http::Version constants; 0-3 headers incl. empty Host, Expect, Transfer-Encoding, mismatching Content-Length; bodies on "
+                "http::Version constants; 0-3 headers incl. empty Host, Expect, Transfer-Encoding, mismatching Content-Length, values with "
+                "opaque bytes >= 0x80 (Connection, TE, custom); bodies on "
                 "POST/PUT - through Client (pool on/off), ConnectionPoolService (pool on/off) and ConnectorService, with and without TLS "
-                "(real rustls against a real hyperdriver Server behind a TLS acceptor), over a transport that optionally applies the TCP "
+                "(real rustls against a real hyperdriver Server behind a TLS acceptor; with ALPN offering h2 on both sides in a third of the "
+                "TLS cases, so that HTTP/1.1-versioned requests travel on HTTP/2 connections), over a transport that optionally applies the TCP "
                 "transport's URI validation before connecting through an in-memory duplex. Panics observed in the caller (catch_unwind) "
                 "and in every task spawned meanwhile (process-wide panic hook counter). Every run includes the grid service x tls x "
-                "tcp-validation x {GET, CONNECT, OPTIONS, POST} x version x 13 URI forms (5200 cases). Comparison with the model is by "
+                "tcp-validation x {GET, CONNECT, OPTIONS, POST} x version x 13 URI forms, plus opaque-byte header variants (8640 cases). Comparison with the model is by "
                 "outcome kind (response / error / panic); agreement of the exact error class is reported in the distribution. "
                 "The tls stream (C12) contributes its panic class. non-trivial = the http crate accepted the request",
         "assumes": ["http crate: request/URI construction (requests it rejects are outside 'well-typed request')",
